@@ -37,6 +37,8 @@ def _combos():
             for td in (None, "error", "interrupt"):
                 for cl in (None, "fail"):
                     out.append((su, te, td, cl))
+    # a cleanup that is interrupted: still one outcome (an error), and the interrupt propagates
+    out += [(None, None, None, "interrupt"), (None, "fail", None, "interrupt"), ("error", "-", "-", "interrupt")]
     return out
 
 
